@@ -17,6 +17,12 @@
 //	point <id> <level> <time>                 a data point whose level lambdas evaluate to <level>  => tx <n>
 //	taskrestart                               StopTask + StartTask (no process death)
 //	uninterrupted                             => mem <dump> disk <dump> told <dump>
+//	failtx <n> <op …>                         the same operation, but the n-th storage transaction it attempts FAILS
+//	                                          (its function runs, the commit does not happen, the caller gets an error)
+//	v1 <T> <id> <level> <time>                (first lines only) an event state present in the VERSION 1 topic store
+//	                                          layout before the first Open: exercises MigrateTopicStoreV1V2
+//	stalebak                                  a <db>.v1.bak left behind by a process death during an earlier migration: try to Open => opened | openerr
+//	crash2 <k> <m> <ph> <k2> <m2> <ph2>       two process deaths; the second refers to the ops remaining after the first
 //	crash <k> <m> <pre|post>                  restart on the snapshot taken before/after the m-th transaction of op k
 //	                                          (m = 0, post: after op k completed) and continue with ops k+1..
 //	                                          => resume <dump> rdisk <dump> final <dump> fdisk <dump> toldb <dump> tolda <dump>
@@ -299,10 +305,30 @@ func (p *proc) apply(t []string) error {
 
 func isHistoryOp(s string) bool {
 	switch s {
-	case "collect", "update", "close", "restore", "deltopic", "point", "taskrestart":
+	case "collect", "update", "close", "restore", "deltopic", "point", "taskrestart", "v1":
 		return true
 	}
 	return false
+}
+
+// histOp is one operation of the history; fail = n means "the n-th storage transaction this operation attempts
+// fails" (0 = none fails).
+type histOp struct {
+	t    []string
+	fail int
+}
+
+func parseHistOp(t []string) (histOp, bool) {
+	if len(t) >= 3 && t[0] == "failtx" {
+		if !isHistoryOp(t[2]) {
+			return histOp{}, false
+		}
+		return histOp{t: t[2:], fail: int(atoi(t[1]))}, true
+	}
+	if isHistoryOp(t[0]) {
+		return histOp{t: t}, true
+	}
+	return histOp{}, false
 }
 
 type snapInfo struct {
@@ -315,6 +341,107 @@ func strip(line string) string {
 		return line[:i]
 	}
 	return line
+}
+
+// procRun is one process lifetime: opened on a database file, some operations processed, closed.
+type procRun struct {
+	resumeMem, resumeDisk string // right after Open (+ task start)
+	finalMem, finalDisk   string
+	opObs                 []string
+	snaps                 map[string]snapInfo
+	rc                    *recs
+	failed                bool // a (non-injected) error stopped the run
+}
+
+// runProc opens a process on dbPath, processes ops and closes it. With snapDir != "" a copy of the Bolt file is
+// taken before and after every transaction and after every operation.
+func runProc(cfg *caseCfg, dbPath string, ops []histOp, snapDir, tag string) (res *procRun, err error) {
+	p, err := openProc(cfg, dbPath)
+	if err != nil {
+		return nil, err
+	}
+	res = &procRun{snaps: map[string]snapInfo{}, rc: p.rc, opObs: make([]string, len(ops))}
+	res.resumeMem, res.resumeDisk = memDump(p.as, cfg.topics), diskDump(p.st, cfg.topics)
+	cur, txm, failN := 0, 0, 0
+	take := func(k, m int, phase string) {
+		if snapDir == "" {
+			return
+		}
+		path := filepath.Join(snapDir, fmt.Sprintf("%s-%d-%d-%s.db", tag, k, m, phase))
+		if e := p.st.snapshot(path); e != nil {
+			panic(e)
+		}
+		res.snaps[fmt.Sprintf("%d/%d/%s", k, m, phase)] = snapInfo{path: path, counts: p.rc.counts(p.as)}
+	}
+	p.st.setHooks(func() { txm++; take(cur, txm, "pre") }, func() { take(cur, txm, "post") },
+		func() bool { return failN != 0 && txm == failN })
+	for k, op := range ops {
+		cur, txm, failN = k, 0, op.fail
+		if op.t[0] == "v1" {
+			// written in the V1 layout before the first Open (see writeV1); nothing to do now
+			take(k, 0, "post")
+			continue
+		}
+		func() {
+			defer func() {
+				if r := recover(); r != nil {
+					res.opObs[k] = "panic"
+				}
+			}()
+			if e := p.apply(op.t); e != nil {
+				res.opObs[k] = fmt.Sprintf("tx %d err", txm)
+				return
+			}
+			res.opObs[k] = fmt.Sprintf("tx %d", txm)
+		}()
+		take(k, 0, "post")
+	}
+	p.st.setHooks(nil, nil, nil)
+	res.finalMem, res.finalDisk = memDump(p.as, cfg.topics), diskDump(p.st, cfg.topics)
+	p.close()
+	return res, nil
+}
+
+// writeV1 creates the database file with the given event states in the VERSION 1 topic store layout
+// (namespace alert_store, one TopicState object per topic, no topic_store_version key).
+func writeV1(dbPath string, ops []histOp) error {
+	states := map[string]map[string]alertservice.EventState{}
+	for _, op := range ops {
+		if op.t[0] != "v1" {
+			continue
+		}
+		T, id := un(op.t[1]), un(op.t[2])
+		if states[T] == nil {
+			states[T] = map[string]alertservice.EventState{}
+		}
+		states[T][id] = alertservice.EventState{Level: alert.Level(atoi(op.t[3])), Time: time.Unix(0, atoi(op.t[4])).UTC()}
+	}
+	if len(states) == 0 {
+		return nil
+	}
+	st, err := openStore(dbPath)
+	if err != nil {
+		return err
+	}
+	defer st.db.Close()
+	dao, err := alertservice.NewTopicStateKV(st.Store(alertservice.AlertNameSpace))
+	if err != nil {
+		return err
+	}
+	for T, m := range states {
+		if err := dao.Put(alertservice.TopicState{Topic: T, EventStates: m}); err != nil {
+			return err
+		}
+	}
+	return nil
+}
+
+func copyFile(src, dst string) error {
+	data, err := os.ReadFile(src)
+	if err != nil {
+		return err
+	}
+	return os.WriteFile(dst, data, 0600)
 }
 
 // execCase runs one case and returns its lines with observations.
@@ -353,108 +480,146 @@ func execCase(lines []string) (out []string, err error) {
 		body = append(body, t)
 		raw = append(raw, l)
 	}
-	var ops [][]string
+	var ops []histOp
 	for _, t := range body {
-		if isHistoryOp(t[0]) {
-			ops = append(ops, t)
+		if op, ok := parseHistOp(t); ok {
+			ops = append(ops, op)
 		}
 	}
 
 	// ---- run 1: the uninterrupted run, with a snapshot at every transaction boundary ----
-	p, err := openProc(cfg, filepath.Join(dir, "main.db"))
+	mainDB := filepath.Join(dir, "main.db")
+	if err := writeV1(mainDB, ops); err != nil {
+		return nil, err
+	}
+	staleObs := ""
+	for _, t := range body {
+		if t[0] == "stalebak" {
+			// a process death during an earlier MigrateTopicStoreV1V2 (after its backup copy was made, before the
+			// version key was set) leaves <db>.v1.bak behind: does the service still open?
+			if _, e := os.Stat(mainDB); e != nil {
+				if st, e := openStore(mainDB); e == nil {
+					st.db.Close()
+				}
+			}
+			bak := mainDB + alertservice.TopicStoreBackupSuffix
+			if e := copyFile(mainDB, bak); e != nil {
+				return nil, e
+			}
+			if p, e := openProc(cfg, mainDB); e != nil {
+				staleObs = "openerr"
+			} else {
+				staleObs = "opened"
+				p.close()
+			}
+			os.Remove(bak)
+			if staleObs == "opened" {
+				// start the case proper from a pristine file again
+				os.Remove(mainDB)
+				if err := writeV1(mainDB, ops); err != nil {
+					return nil, err
+				}
+			}
+		}
+	}
+	r1, err := runProc(cfg, mainDB, ops, dir, "a")
 	if err != nil {
 		return nil, err
 	}
-	snaps := map[string]snapInfo{}
-	cur, txm := 0, 0
-	take := func(k, m int, phase string) {
-		path := snapPath(dir, k, m, phase)
-		if e := p.st.snapshot(path); e != nil {
-			panic(e)
+	lastV1 := -1
+	for k, op := range ops {
+		if op.t[0] == "v1" {
+			lastV1 = k
 		}
-		snaps[fmt.Sprintf("%d/%d/%s", k, m, phase)] = snapInfo{path: path, counts: p.rc.counts(p.as)}
 	}
-	p.st.setHooks(func() { txm++; take(cur, txm, "pre") }, func() { take(cur, txm, "post") })
-	opObs := make([]string, len(ops))
-	for k, t := range ops {
-		cur, txm = k, 0
-		func() {
-			defer func() {
-				if r := recover(); r != nil {
-					opObs[k] = "panic"
-				}
-			}()
-			if e := p.apply(t); e != nil {
-				opObs[k] = fmt.Sprintf("tx %d err", txm)
-				return
-			}
-			opObs[k] = fmt.Sprintf("tx %d", txm)
-		}()
-		take(k, 0, "post")
-	}
-	p.st.setHooks(nil, nil)
-	unMem, unDisk := memDump(p.as, cfg.topics), diskDump(p.st, cfg.topics)
-	p.close()
-	unTold := p.rc.render(nil)
-	rc1 := p.rc
 
-	// ---- per requested crash point: restart on the snapshot, continue ----
+	restartOn := func(sn snapInfo, rest []histOp, snapTag string, n int) (*procRun, error) {
+		db := filepath.Join(dir, fmt.Sprintf("re-%d-%s.db", n, snapTag))
+		if err := copyFile(sn.path, db); err != nil {
+			return nil, err
+		}
+		sd := ""
+		if snapTag != "" {
+			sd = dir
+		}
+		return runProc(cfg, db, rest, sd, fmt.Sprintf("%s%d", snapTag, n))
+	}
+
 	ki := 0
 	for i, t := range body {
+		_, isOp := parseHistOp(t)
 		switch {
-		case isHistoryOp(t[0]):
-			out = append(out, raw[i]+" => "+opObs[ki])
+		case isOp:
+			if r1.opObs[ki] == "" {
+				out = append(out, raw[i])
+			} else {
+				out = append(out, raw[i]+" => "+r1.opObs[ki])
+			}
 			ki++
+		case t[0] == "stalebak":
+			out = append(out, raw[i]+" => "+staleObs)
 		case t[0] == "uninterrupted":
-			out = append(out, fmt.Sprintf("%s => mem %s disk %s told %s", raw[i], unMem, unDisk, unTold))
+			out = append(out, fmt.Sprintf("%s => mem %s disk %s told %s", raw[i], r1.finalMem, r1.finalDisk, r1.rc.render(nil)))
 		case t[0] == "crash" && len(t) == 4:
 			k, m := int(atoi(t[1])), int(atoi(t[2]))
-			sn, ok := snaps[fmt.Sprintf("%d/%d/%s", k, m, t[3])]
-			if !ok {
+			sn, ok := r1.snaps[fmt.Sprintf("%d/%d/%s", k, m, t[3])]
+			if !ok || k < lastV1 {
 				out = append(out, raw[i]+" => none")
 				continue
 			}
-			obs, e := restartRun(cfg, sn, ops, k, rc1, filepath.Join(dir, fmt.Sprintf("re-%d.db", i)))
-			if e != nil {
-				return nil, e
+			obs := func() (obs string) {
+				defer func() {
+					if r := recover(); r != nil {
+						obs = "panic"
+					}
+				}()
+				r2, e := restartOn(sn, ops[k+1:], "", i)
+				if e != nil {
+					return "openerr"
+				}
+				return fmt.Sprintf("resume %s rdisk %s final %s fdisk %s toldb %s tolda %s",
+					r2.resumeMem, r2.resumeDisk, r2.finalMem, r2.finalDisk,
+					renderParts(cfg.topics, []logPart{{r1.rc, sn.counts}}), r2.rc.render(nil))
+			}()
+			out = append(out, raw[i]+" => "+obs)
+		case t[0] == "crash2" && len(t) == 7:
+			// crash2 k m ph k2 m2 ph2: the second crash point refers to the operations remaining after the first
+			k, m := int(atoi(t[1])), int(atoi(t[2]))
+			k2, m2 := int(atoi(t[4])), int(atoi(t[5]))
+			sn, ok := r1.snaps[fmt.Sprintf("%d/%d/%s", k, m, t[3])]
+			if !ok || k < lastV1 {
+				out = append(out, raw[i]+" => none")
+				continue
 			}
+			obs := func() (obs string) {
+				defer func() {
+					if r := recover(); r != nil {
+						obs = "panic"
+					}
+				}()
+				rest := ops[k+1:]
+				rb, e := restartOn(sn, rest, "b", i)
+				if e != nil {
+					return "openerr"
+				}
+				sn2, ok := rb.snaps[fmt.Sprintf("%d/%d/%s", k2, m2, t[6])]
+				if !ok {
+					return "none"
+				}
+				rc, e := restartOn(sn2, rest[k2+1:], "", i)
+				if e != nil {
+					return "openerr"
+				}
+				return fmt.Sprintf("resume %s rdisk %s final %s fdisk %s toldb %s tolda %s",
+					rc.resumeMem, rc.resumeDisk, rc.finalMem, rc.finalDisk,
+					renderParts(cfg.topics, []logPart{{r1.rc, sn.counts}, {rb.rc, sn2.counts}}), rc.rc.render(nil))
+			}()
 			out = append(out, raw[i]+" => "+obs)
 		default:
 			return nil, fmt.Errorf("bad line %q", raw[i])
 		}
 	}
 	return out, nil
-}
-
-func restartRun(cfg *caseCfg, sn snapInfo, ops [][]string, k int, rc1 *recs, dbPath string) (obs string, err error) {
-	data, err := os.ReadFile(sn.path)
-	if err != nil {
-		return "", err
-	}
-	if err := os.WriteFile(dbPath, data, 0600); err != nil {
-		return "", err
-	}
-	defer func() {
-		if r := recover(); r != nil {
-			obs, err = "panic", nil
-		}
-	}()
-	p, err := openProc(cfg, dbPath)
-	if err != nil {
-		return "", err
-	}
-	resume, rdisk := memDump(p.as, cfg.topics), diskDump(p.st, cfg.topics)
-	for _, t := range ops[k+1:] {
-		if e := p.apply(t); e != nil {
-			p.close()
-			return "err", nil
-		}
-	}
-	final, fdisk := memDump(p.as, cfg.topics), diskDump(p.st, cfg.topics)
-	p.close()
-	os.Remove(dbPath)
-	return fmt.Sprintf("resume %s rdisk %s final %s fdisk %s toldb %s tolda %s",
-		resume, rdisk, final, fdisk, rc1.render(sn.counts), p.rc.render(nil)), nil
 }
 
 func emit(out *kit.Out, id string, lines []string) {
